@@ -337,6 +337,9 @@ def run(ctx):
         from harness.common import run_demo
         run_demo(ctx, 'demo_io32.py', [20260929 + ctx.seed], 'c13-float-generations',
                  'save/load generations against the binary32/binary64 model (document numbers and stored values, exact)', env_extra=dict(DEMO_N='40' if ctx.tier == 'quick' else '300', DEMO_Q='4000' if ctx.tier == 'quick' else '24000'))
+        if ctx.n_new() == 0:
+            run_demo(ctx, 'demo_tr3.py', [1 + ctx.seed], 'c13-code-vs-generated-vs-model',
+                     'spn_to_digraph / digraph_to_spn vs generated definitions vs Io model', env_extra=dict(DEMO_SECTIONS='f'))
 
 
 def replay(rep):
